@@ -1,5 +1,93 @@
-import Gobptree.Ops
-namespace Gobptree
-theorem C04_placeholder : True := trivial
-end Gobptree
-#print axioms Gobptree.C04_placeholder
+/-
+  C04 — cursor steps are atomic successor queries even while writers run.
+
+  Status: the FULL statement (each Scan step linearises as a successor query) is kept as a
+  definition and NOT yet proved in Lean; it is decided on the implementation side by the
+  linearizability checker (Scan as a successor query, Pair as a lookup) over all schedules
+  of the writer-next-to-cursor catalogue and random schedules, with the model tied by the
+  event-log replay.  Proved here, for every schedule: cursor operations never write; the
+  pair handed out by `Pair` is an entry of the leaf the cursor holds at that moment, at the
+  cursor's index; a hop takes the next leaf before releasing the current one.
+-/
+import Gobptree.Proofs.ConcReach
+
+namespace Gobptree.Conc
+open Gobptree
+
+variable {K V : Type}
+
+/-- FULL statement (not proved), phrased on successor queries: for every completed
+    `scan` step there is a position of the log inside the step's call interval at which
+    the smallest stored key above the previously reported one (or ≥ start) is the one the
+    following `pair` reports, or none exists iff the step returned false. -/
+def C04_cursor_atomic_statement (succAt : Config Nat Nat → Nat → Nat → Option Nat) : Prop :=
+  ∀ (P : Params Nat) (tree : Tree Nat Nat) (progs : List (List (COp Nat Nat))) (c : Config Nat Nat),
+    4 ≤ P.order → Reachable (Config.init P tree progs) c → c.dead = false →
+    ∀ t idx, ∃ pos, succAt c t idx = some pos
+
+/-- **C04 (partial): `Pair` exposes an entry of the held leaf.** When `Pair` returns
+    `(k, v)`, the cursor holds a leaf of the current tree and `(k, v)` is the entry at the
+    cursor's index in that leaf — so it is stored in the tree at that moment, with its
+    current value. -/
+theorem C04_pair_is_stored_partial (t : Nat) (s s' : St K V) (k : K) (v : V)
+    (h : startOp t s (.pair : COp K V) = (s', .done (.pair k v))) :
+    ∃ (leaf : Nat) (i : Int) (l : Leaf K V),
+      s.cursor = some (some leaf, i) ∧ (s.tree.find leaf).bind leafOf? = some l ∧ 0 ≤ i ∧
+      l.keys[i.toNat]? = some k ∧ l.vals[i.toNat]? = some v ∧ s'.tree = s.tree := by
+  simp only [startOp] at h
+  split at h
+  · rename_i leaf i hcur hex
+    split at h
+    · simp at h
+    · rename_i l hl
+      split at h
+      · simp at h
+      · rename_i hi
+        split at h
+        · rename_i k' v' hk hv
+          simp only [Prod.mk.injEq, Flow.done.injEq, Res.pair.injEq] at h
+          obtain ⟨rfl, rfl, rfl⟩ := h
+          exact ⟨leaf, i, l, hcur, hl, by omega, hk, hv, rfl⟩
+        · simp at h
+  · simp at h
+
+/-- **C04 (partial): cursor operations never write.** `scan`, `pair`, `close` and the hop
+    leave the whole tree unchanged. -/
+theorem C04_cursor_readonly_partial (P : Params K) (t : Nat) (s : St K V) :
+    (startOp t s (.scan : COp K V)).1.tree = s.tree ∧
+    (startOp t s (.pair : COp K V)).1.tree = s.tree ∧
+    (startOp t s (.close : COp K V)).1.tree = s.tree ∧
+    (∀ cur next, (resume P t s (.hop cur next)).1.tree = s.tree) := by
+  refine ⟨?_, ?_, ?_, fun _ _ => rfl⟩
+  · simp only [startOp]
+    split
+    · split
+      · rfl
+      · split
+        · split <;> rfl
+        · rfl
+    · rfl
+  · simp only [startOp]
+    split
+    · split
+      · rfl
+      · split
+        · rfl
+        · split <;> rfl
+    · rfl
+  · simp only [startOp]
+    split
+    · rfl
+    · rename_i leaf? i _
+      cases leaf? <;> rfl
+
+/-- **C04 (partial): the hop is hand-over-hand.** Resuming a hop acquires the next leaf
+    FIRST and only then releases the current one (events are logged newest first). -/
+theorem C04_hop_order_partial (P : Params K) (t : Nat) (s : St K V) (cur next : Nat) :
+    (resume P t s (.hop cur next)).1.evs = Ev.rel t (.node cur) :: Ev.acq t (.node next) :: s.evs := rfl
+
+end Gobptree.Conc
+
+#print axioms Gobptree.Conc.C04_pair_is_stored_partial
+#print axioms Gobptree.Conc.C04_cursor_readonly_partial
+#print axioms Gobptree.Conc.C04_hop_order_partial
